@@ -204,3 +204,14 @@ def run(rep, ctx, tier):
         rep.add("R5", "%s:aborts-on-request" % key, ok,
                 "an aborting assertion depends on the request parameters" if ok else
                 "no aborting branch of %s depends on its request parameters" % short(b.id), b.span)
+
+
+_run_c17 = run
+
+
+def run(rep, ctx, tier):
+    _run_c17(rep, ctx, tier)
+    # Hyrax's Pedersen helper documents "panics if key and scalars do not have the same length": it is the only refusal of
+    # a row longer than the key once the key is large, and the multi-scalar call under it truncates silently (R4m)
+    from ..rules import msmguard
+    msmguard.run(rep, ctx, ["hyrax::"])
